@@ -247,7 +247,7 @@ def run_guard(shard, spec):
         if ci % spec['of'] != spec['shard']:
             continue
         for ti, tgt in enumerate(TARGETS):
-            for variant in range(2 if ti else 8):
+            for variant in range(2 if ti else 14):
                 rng = shard.rng('guard', ci, ti, variant)
                 d = rng.choice([0, 1, 0x7F, 0x80, 0xFF]) if variant else 0
                 ds = d - 256 if d > 127 else d
@@ -290,16 +290,21 @@ def run_guard(shard, spec):
                     regs[2], regs[3] = 0, 2       # repeating block instruction: BC=2
                 if variant >= 2:
                     # arithmetic boundary states (range of every register after the step), and placements at the top
-                    # of memory (PC must wrap to 0..65535)
-                    fillv = [0xFF, 0x80, 0x00, 0x01, 0x7F, 0xFF][variant - 2]
+                    # of memory (PC must wrap to 0..65535); variants 8..13 repeat the placements with the stack in RAM
+                    # (a return address pushed from the top of memory must be two bytes in 0..255) and other fills
+                    v6 = (variant - 2) % 6
+                    high = variant >= 8
+                    fillv = ([0x00, 0x7F, 0xFF, 0x80, 0x01, 0x00] if high else [0xFF, 0x80, 0x00, 0x01, 0x7F, 0xFF])[v6]
                     for i in range(24):
                         if i not in (12, 13):
                             regs[i] = fillv
-                    regs[12] = [0xFFFF, 0x8000, 0x0000, 0x0001, 0x7FFF, 0xFFFE][variant - 2]
+                    regs[12] = ([0x8000, 0x7FFF, 0x8001, 0x8000, 0xC000, 0x5B00] if high else [0xFFFF, 0x8000, 0x0000, 0x0001, 0x7FFF, 0xFFFE])[v6]
                     if variant == 5:
                         regs[6], regs[7], regs[2], regs[3] = 0xFF, 0xFF, 0x00, 0x01      # HL=0xFFFF, BC=1: sum exactly 65536
-                    addr = [0x8000, 0x8000, 65534, 65533, 65532, 65535][variant - 2]
+                    addr = [0x8000, 0x8000, 65534, 65533, 65532, 65535][v6] if not high else [65533, 65534, 65535, 65533, 65532, 65531][v6]
                     regs[24] = addr
+                    if high and v6 in (0, 3):
+                        regs[1] = [0xFF, 0, 0, 0x00][v6]            # all flags set / clear: conditional CALLs taken either way
                 for kind in kinds:
                     m = machine(kind)
                     mem = m.sim.memory
